@@ -47,7 +47,7 @@ pub fn c10(tier: &str, seed: u64, meta: &str) -> Report {
             let bytes = if j < n_prefix { store_bytes[..j as usize].to_vec() } else { corpus[(j - n_prefix) as usize].clone() };
             (if i % 2 == 0 { "selections" } else { "autocorrect" }, Some(bytes), "ok")
         } else {
-            ("none", None, if i % 2 == 0 { "missing" } else { "file" })
+            ("none", None, ["missing", "file", "blocked"][(i % 3) as usize])
         };
         let bits = [2u32, 3, 10, 0][rng.below(4)];
         let home = std::path::PathBuf::from("/nonexistent");
@@ -106,7 +106,7 @@ pub fn c10(tier: &str, seed: u64, meta: &str) -> Report {
         rep.nontrivial_key(&format!("{} {:?} {}", which, content, dir_fault));
         if rep.samples.len() < 2 && i % 37 == 5 { rep.sample(describe("sample (no panic, behaves as if absent)", json!({"events": s.history.len()}))); }
     });
-    rep.extra.insert("rule".into(), json!(format!("fault states of the two optional user files: EVERY prefix (0..{} bytes) of a store the engine writes (all crash points of the non-atomic save), a corpus of {} malformed / wrong-shape / empty-string documents (incl. files of 0, 1 and 2 bytes, BOM, duplicate keys, 300 entries), each as the selection store and as the user auto-correct list; a user-data directory that is missing or occupied by a regular file (the sandbox runs as root, so permission bits cannot make a directory read-only); each followed by typing (incl. stored key + known suffix), commits, a reload with a damaged auto-correct file, a restart and an option change; reference = the same events with the file absent", store_bytes.len(), n_corpus)));
+    rep.extra.insert("rule".into(), json!(format!("fault states of the two optional user files: EVERY prefix (0..{} bytes) of a store the engine writes (all crash points of the non-atomic save), a corpus of {} malformed / wrong-shape / empty-string documents (incl. files of 0, 1 and 2 bytes, BOM, duplicate keys, 300 entries), each as the selection store and as the user auto-correct list; a user-data directory that is missing, occupied by a regular file, or missing below a regular file so that it cannot be made (the sandbox runs as root, so permission bits cannot make a directory read-only); each followed by typing (incl. stored key + known suffix), commits, a reload with a damaged auto-correct file, a restart and an option change; reference = the same events with the file absent", store_bytes.len(), n_corpus)));
     rep.extra.insert("exhaustive".into(), json!(true));
     rep
 }
